@@ -248,26 +248,32 @@ func leanPairTable(t [][2]string) string {
 	return "[" + strings.Join(parts, ", ") + "]"
 }
 
-// classify an operand of the returned expression: subj = lsf(…) or le.Timestamp ; val = val, cn.Value or tm
+// classify an operand of the returned expression structurally: an expression that reads the closure's parameter (the
+// event: le.Msg, le.Fields.Value(…), le.Timestamp, possibly through a conversion function) is the subject, a literal is
+// itself, anything else (a captured local or field holding the condition's value / parsed time) is the value
+var c05ClosureParam = "le"
+
+func c05Mentions(e ast.Expr, name string) bool {
+	found := false
+	ast.Inspect(e, func(n ast.Node) bool {
+		if id, ok := n.(*ast.Ident); ok && id.Name == name {
+			found = true
+		}
+		return true
+	})
+	return found
+}
+
 func classifyArg(e ast.Expr) string {
-	switch x := e.(type) {
-	case *ast.CallExpr:
-		if id, ok := x.Fun.(*ast.Ident); ok && id.Name == "lsf" {
-			return "subj"
-		}
-	case *ast.Ident:
-		if x.Name == "val" || x.Name == "tm" {
-			return "val"
-		}
-	case *ast.SelectorExpr:
-		if x.Sel.Name == "Value" {
-			return "val"
-		}
-		if x.Sel.Name == "Timestamp" {
-			return "subj"
-		}
-	case *ast.BasicLit:
-		return x.Value
+	if bl, ok := e.(*ast.BasicLit); ok {
+		return bl.Value
+	}
+	if c05Mentions(e, c05ClosureParam) {
+		return "subj"
+	}
+	switch e.(type) {
+	case *ast.Ident, *ast.SelectorExpr:
+		return "val"
 	}
 	return "?"
 }
@@ -284,58 +290,166 @@ func describeCall(ce *ast.CallExpr) string {
 	return name + "(" + strings.Join(args, ",") + ")"
 }
 
-// switchTable describes the first switch statement of fd: per case label, what the closure assigned to web.wef returns.
-func switchTable(fd *ast.FuncDecl, consts map[string]string) [][2]string {
-	var t [][2]string
+// describeClosure: what the first function literal under n returns
+func describeClosure(n ast.Node) string {
+	desc := ""
+	ast.Inspect(n, func(m ast.Node) bool {
+		fl, ok := m.(*ast.FuncLit)
+		if !ok || desc != "" {
+			return true
+		}
+		if fl.Type.Params != nil && len(fl.Type.Params.List) == 1 && len(fl.Type.Params.List[0].Names) == 1 {
+			c05ClosureParam = fl.Type.Params.List[0].Names[0].Name
+		}
+		locals := map[string]ast.Expr{}
+		// the closure body: either `return <expr>` or `res, _ := path.Match(a, b); return res`
+		for _, st := range fl.Body.List {
+			switch s := st.(type) {
+			case *ast.AssignStmt:
+				if len(s.Rhs) == 1 {
+					isMatch := false
+					if ce, ok := s.Rhs[0].(*ast.CallExpr); ok {
+						if se, ok := ce.Fun.(*ast.SelectorExpr); ok && se.Sel.Name == "Match" {
+							desc = describeCall(ce)
+							isMatch = true
+						}
+					}
+					if !isMatch && len(s.Lhs) == 1 {
+						if id, ok := s.Lhs[0].(*ast.Ident); ok {
+							locals[id.Name] = s.Rhs[0] // a hoisted operand: v := lsf(…), ts := le.Timestamp
+						}
+					}
+				}
+			case *ast.ReturnStmt:
+				if desc != "" || len(s.Results) != 1 {
+					continue
+				}
+				res := func(e ast.Expr) ast.Expr {
+					if id, ok := e.(*ast.Ident); ok {
+						if d, ok := locals[id.Name]; ok {
+							return d
+						}
+					}
+					return e
+				}
+				switch r := s.Results[0].(type) {
+				case *ast.CallExpr:
+					cp := *r
+					cp.Args = nil
+					for _, a := range r.Args {
+						cp.Args = append(cp.Args, res(a))
+					}
+					desc = describeCall(&cp)
+				case *ast.BinaryExpr:
+					desc = classifyArg(res(r.X)) + r.Op.String() + classifyArg(res(r.Y))
+				default:
+					desc = "?"
+				}
+			}
+		}
+		return false
+	})
+	return desc
+}
+
+// eqLabels: the labels of a condition `X == L`, `L == X` or a disjunction of those (an if-cascade written instead of a switch)
+func eqLabels(cond ast.Expr) []ast.Expr {
+	switch c := cond.(type) {
+	case *ast.ParenExpr:
+		return eqLabels(c.X)
+	case *ast.BinaryExpr:
+		if c.Op == token.LOR {
+			l, r := eqLabels(c.X), eqLabels(c.Y)
+			if l == nil || r == nil {
+				return nil
+			}
+			return append(l, r...)
+		}
+		if c.Op == token.EQL {
+			isLab := func(e ast.Expr) bool {
+				switch x := e.(type) {
+				case *ast.BasicLit:
+					return x.Kind == token.STRING
+				case *ast.Ident:
+					return strings.HasPrefix(x.Name, "CMP_") || strings.HasPrefix(x.Name, "OPND_")
+				}
+				return false
+			}
+			if isLab(c.Y) {
+				return []ast.Expr{c.Y}
+			}
+			if isLab(c.X) {
+				return []ast.Expr{c.X}
+			}
+		}
+	}
+	return nil
+}
+
+type c05Clause struct {
+	labels []ast.Expr
+	body   ast.Node
+}
+
+// c05Clauses: the case clauses of the first tagged switch of fd, or — when the function has none — of the if / else-if
+// cascade(s) over equality tests with string labels
+func c05Clauses(fd *ast.FuncDecl) []c05Clause {
+	var cls []c05Clause
 	done := false
 	ast.Inspect(fd.Body, func(n ast.Node) bool {
+		if _, ok := n.(*ast.FuncLit); ok {
+			return false
+		}
 		sw, ok := n.(*ast.SwitchStmt)
-		if !ok || done {
+		if !ok || done || sw.Tag == nil {
 			return !done
 		}
 		done = true
 		for _, c := range sw.Body.List {
 			cc := c.(*ast.CaseClause)
 			if cc.List == nil {
-				continue // default
+				continue
 			}
-			desc := ""
-			ast.Inspect(cc, func(m ast.Node) bool {
-				fl, ok := m.(*ast.FuncLit)
-				if !ok || desc != "" {
-					return true
-				}
-				// the closure body: either `return <expr>` or `res, _ := path.Match(a, b); return res`
-				for _, st := range fl.Body.List {
-					switch s := st.(type) {
-					case *ast.AssignStmt:
-						if len(s.Rhs) == 1 {
-							if ce, ok := s.Rhs[0].(*ast.CallExpr); ok {
-								desc = describeCall(ce)
-							}
-						}
-					case *ast.ReturnStmt:
-						if desc != "" || len(s.Results) != 1 {
-							continue
-						}
-						switch r := s.Results[0].(type) {
-						case *ast.CallExpr:
-							desc = describeCall(r)
-						case *ast.BinaryExpr:
-							desc = classifyArg(r.X) + r.Op.String() + classifyArg(r.Y)
-						default:
-							desc = "?"
-						}
-					}
-				}
-				return false
-			})
-			for _, lab := range cc.List {
-				t = append(t, [2]string{labelValue(lab, consts), desc})
-			}
+			cls = append(cls, c05Clause{cc.List, cc})
 		}
 		return false
 	})
+	if done {
+		return cls
+	}
+	var walkIf func(is *ast.IfStmt)
+	walkIf = func(is *ast.IfStmt) {
+		if labs := eqLabels(is.Cond); labs != nil {
+			cls = append(cls, c05Clause{labs, is.Body})
+		}
+		if e, ok := is.Else.(*ast.IfStmt); ok {
+			walkIf(e)
+		}
+	}
+	ast.Inspect(fd.Body, func(n ast.Node) bool {
+		switch x := n.(type) {
+		case *ast.FuncLit:
+			return false
+		case *ast.IfStmt:
+			if eqLabels(x.Cond) != nil {
+				walkIf(x)
+				return false
+			}
+		}
+		return true
+	})
+	return cls
+}
+
+// switchTable: per case label (switch or equivalent if-cascade), what the closure assigned in that branch returns.
+func switchTable(fd *ast.FuncDecl, consts map[string]string) [][2]string {
+	var t [][2]string
+	for _, c := range c05Clauses(fd) {
+		desc := describeClosure(c.body)
+		for _, lab := range c.labels {
+			t = append(t, [2]string{labelValue(lab, consts), desc})
+		}
+	}
 	return t
 }
 
@@ -358,7 +472,7 @@ func likeAssigns(fd *ast.FuncDecl) bool {
 			return true
 		}
 		if se, ok := ce.Fun.(*ast.SelectorExpr); ok && se.Sel.Name == "Match" {
-			if id, ok := as.Lhs[1].(*ast.Ident); ok && id.Name == "err" && as.Tok == token.ASSIGN {
+			if id, ok := as.Lhs[1].(*ast.Ident); ok && id.Name != "_" && as.Tok == token.ASSIGN {
 				found = true
 			}
 		}
